@@ -1024,7 +1024,7 @@ class FDE:
             if attr in self.stubs:
                 return Bound(base, None, attr, False)       # method of an external base class, stubbed by name
             raise Unsupported('field %s of %r (%s) not modelled' % (attr, base, base.cls))
-        if isinstance(base, ObjDict) and attr in ('update', 'copy'):
+        if isinstance(base, ObjDict) and attr in ('update', 'copy', 'get', 'pop'):
             return ('objdictmethod', base, attr)
         if isinstance(base, dict) and attr in ('get', 'items', 'keys', 'values', 'pop', 'update', 'setdefault'):
             return ('dictmethod', base, attr)
@@ -1259,6 +1259,12 @@ class FDE:
                     return out_
                 return ('dictdisplay', tuple(parts))
             return {self._ev(k, env, fi): self._ev(v, env, fi) for k, v in zip(e.keys, e.values)}
+        if isinstance(e, ast.Set) and not any(isinstance(x, ast.Starred) for x in e.elts):
+            vals_ = [self._ev(x, env, fi) for x in e.elts]
+            try:
+                return set(vals_)
+            except TypeError:
+                raise Raised('TypeError')      # unhashable element
         if isinstance(e, (ast.Tuple, ast.List)):
             vals = []
             for x in e.elts:
@@ -1936,6 +1942,19 @@ class FDE:
                 if target[2] == 'update' and args and isinstance(args[0], ObjDict):
                     self.effects.append(('call', '__dict__.update', target[1].obj, (args[0].obj,), ()))
                     return None
+                if target[2] in ('get', 'pop') and 1 <= len(args) <= 2 and not kwargs and isinstance(args[0], str):
+                    o_ = target[1].obj
+                    if args[0] in o_.f and args[0] not in o_.missing:
+                        v_ = o_.f[args[0]]
+                        if target[2] == 'pop':
+                            del o_.f[args[0]]
+                            o_.missing.add(args[0])
+                        return v_
+                    if args[0] in o_.missing or not self.repo.class_attr(o_.cls, args[0])[1]:
+                        if target[2] == 'pop' and len(args) == 1:
+                            raise Raised('KeyError')
+                        return args[1] if len(args) > 1 else None       # obj.__dict__.get(name): an attribute this object was never given
+                    raise Unsupported('__dict__.%s(%r) of %s' % (target[2], args[0], o_.name))
                 if target[2] == 'copy' and not args and not kwargs:
                     o_ = target[1].obj
                     return {k: v for k, v in o_.f.items() if k not in o_.missing and not k.startswith('_fde_')}     # a plain dict: the state of the object
